@@ -33,6 +33,7 @@ def run(ctx):
     behs = U.gen(ctx, "Gen_UdpNatReal.cfg", 100 if q else 600, seed=ctx.seed + 104729)
     trace, sums = U.run_real(ctx, behs, "c16")
     U.validate(ctx, trace, "UdpNatTraceReal.cfg", U.PROPS["C16"], "real sockets, recording metrics", behs)
+    U.summary_violations(ctx, sums, behs, "real sockets, recording metrics", set())
     # second pass: real Prometheus collectors
     b2 = behs[: (40 if q else 300)]
     trace2, sums2 = U.run_real(ctx, b2, "c16prom", prom=True)
